@@ -10,7 +10,7 @@ from vk.build import pack_bp, unpack_bp
 
 ID = 'C12'
 RULE = ('Part bigarr: mv_and / mv_or / mv_xor on operands of 2.1-5.4 million elements with a broadcast second operand. (zero-dimensional operands on either side are part of the arrays part) ' +
-        'Part tables (exhaustive): every operator (NOT/BUF with 1 operand; AND/OR/XOR with k=1..4 operands) in the formats bp8v, bp4v, '
+        'Part tables (exhaustive): every operator (NOT/BUF with 1 operand; AND/OR/XOR with k=1..4 operands) in the formats bp8v, bp4v, bp4v on three-plane operands whose third plane is arbitrary (the 4-valued operators consider bit0 and bit1 only), '
         'mv (public 2-operand functions, nested for k>2; the private n-ary array kernels are not called directly), on ALL 8^k (4^k for the 4-valued operators) operand '
         'tuples; one enumerated case = (format, operator, k, first operand) and covers all tuples with that first operand, evaluated '
         'packed side by side in lanes and again one tuple alone. Oracle: independent abstract algebra; Boolean restriction; De Morgan. '
@@ -36,7 +36,7 @@ def ref_op(op, tup):
 
 
 def enum_tables(tier):
-    for fmt in ('bp8', 'bp4', 'mv'):
+    for fmt in ('bp8', 'bp4', 'bp4w', 'mv'):
         alpha = [0, 1, 2, 3] if fmt == 'bp4' else list(range(8))
         for op in ('not', 'buf', 'and', 'or', 'xor'):
             if op == 'buf' and fmt == 'mv':
@@ -53,11 +53,11 @@ def apply_impl(fmt, op, cols):
     """cols: list of k uint8 arrays (n,) of codes. Returns result codes (n,)."""
     from kyupy import logic
     n = len(cols[0])
-    if fmt in ('bp8', 'bp4'):
+    if fmt in ('bp8', 'bp4', 'bp4w'):
         planes = 3 if fmt == 'bp8' else 2
-        ins = [np.ascontiguousarray(pack_bp(c[np.newaxis, :])[0, :planes]) for c in cols]
+        ins = [np.ascontiguousarray(pack_bp(c[np.newaxis, :])[0, :(3 if fmt == 'bp4w' else planes)]) for c in cols]
         before = [i.copy() for i in ins]
-        out = np.full_like(ins[0], 0x5a)
+        out = np.full_like(ins[0][:planes], 0x5a)
         f = getattr(logic, f'bp{8 if fmt == "bp8" else 4}v_{op}')
         r = f(out, *ins)
         if r is not out:
@@ -85,9 +85,9 @@ def prop_tables(case):
     tuples = [(a,) + rest for rest in itertools.product(alpha, repeat=k - 1)]
     cols = [np.array([t[j] for t in tuples], dtype=np.uint8) for j in range(k)]
     got = np.array(apply_impl(fmt, op, [c.copy() for c in cols]), dtype=np.uint8)
+    if fmt == 'bp4w':         # "4-valued logic only considers bit0 and bit1" (logic.py): three-plane operands with any third plane, two-plane destination
+        tuples = [tuple(x & 3 for x in t) for t in tuples]
     exp = np.array([ref_op(op, t) for t in tuples], dtype=np.uint8)
-    if fmt == 'bp4':
-        pass
     bad = np.flatnonzero(cls_arr(got) != cls_arr(exp))
     if len(bad):
         i = int(bad[0])
